@@ -75,9 +75,8 @@ def rule_A8(ctx):
             if t == 'BitStore':
                 # the copying constructor: argument must not be passed with buffer=
                 return True
-            if isinstance(e.func, ast.Attribute) and e.func.attr in ('_copy', 'getslice', 'getslice_msb0', 'getslice_lsb0',
-                                                                  'getslice_withstep', 'frombytes'):
-                return True
+            if isinstance(e.func, ast.Attribute) and (e.func.attr in ('_copy', 'frombytes') or e.func.attr.startswith('getslice')):
+                return True       # every getslice* variant is itself checked below to return a new store
         if isinstance(e, ast.Name):
             # local built by a fresh expression
             for x in own_walk(f.node):
